@@ -297,4 +297,104 @@ theorem SparseWF.decodes (points : List Iup.Pt) (sp : Option (List Nat)) (Δ M :
   rw [accSparse_eq_workOf pts xs ys _ _ bs rest ts.2 points h2 h1 h3 h4 h5 h6 h7 M Δ hM hΔ hMΔ hs hpts h8 h9]
   simp only [DTuple.work, scaledEx_eq]
 
+
+/-- one model step (either kind) is the decoded step -/
+def StepDecodes (points : List Iup.Pt) (ends : List Nat) (sp : Option (List Nat))
+    (ts : GvarData.RawTuple × Int) (dt : DTuple) : Prop :=
+  ∀ acc : List Iup.Pt, acc.length = points.length →
+    (if ts.1.allPoints sp then accDense (ts.1.ptsAndDeltas sp).2 ts.2 acc
+      else simpleSparseTuple points ends ts.1 sp ts.2 acc)
+    = (decodedContribution points ends dt).map (stepAdd acc)
+
+theorem fold_eq_decoded (points : List Iup.Pt) (ends : List Nat) (sp : Option (List Nat)) :
+    ∀ (l : List (GvarData.RawTuple × Int)) (dts : List DTuple) (acc : List Iup.Pt),
+      l.length = dts.length → acc.length = points.length →
+      (∀ p ∈ l.zip dts, StepDecodes points ends sp p.1 p.2) →
+      l.foldl (fun (o : Option (List Iup.Pt)) (ts : GvarData.RawTuple × Int) => match o with
+        | none => none
+        | some d => if ts.1.allPoints sp then accDense (ts.1.ptsAndDeltas sp).2 ts.2 d
+                    else simpleSparseTuple points ends ts.1 sp ts.2 d) (some acc)
+      = dts.foldl (fun (o : Option (List Iup.Pt)) t => match o with
+        | none => none
+        | some d => (decodedContribution points ends t).map (stepAdd d)) (some acc) := by
+  intro l
+  induction l with
+  | nil => intro dts acc hl _ _; cases dts with
+    | nil => rfl
+    | cons _ _ => simp at hl
+  | cons ts l ih =>
+    intro dts acc hl ha hd
+    cases dts with
+    | nil => simp at hl
+    | cons dt dts =>
+      have hstep := hd (ts, dt) (by simp) acc ha
+      simp only [List.foldl_cons]
+      rw [hstep]
+      cases hc : decodedContribution points ends dt with
+      | none =>
+        simp only [Option.map_none]
+        refine Eq.trans ?_ (decodedStep_none (points := points) (ends := ends) dts).symm
+        exact foldl_none (fun d (ts : GvarData.RawTuple × Int) => if ts.1.allPoints sp then accDense (ts.1.ptsAndDeltas sp).2 ts.2 d
+          else simpleSparseTuple points ends ts.1 sp ts.2 d) l
+      | some c =>
+        simp only [Option.map_some]
+        exact ih dts _ (by simpa using hl) (by rw [stepAdd_length]; exact ha) (fun p hp => hd p (by simp [hp]))
+
+theorem SparseDecodes.step (points : List Iup.Pt) (ends : List Nat) (sp : Option (List Nat))
+    (ts : GvarData.RawTuple × Int) (dt : DTuple) (h : SparseDecodes points sp ts dt) :
+    StepDecodes points ends sp ts dt := by
+  intro acc ha
+  have := fold_sparse_eq_decoded points ends sp [ts] [dt] acc rfl ha (by intro p hp; simp at hp; rw [hp]; exact h)
+  simpa using this
+
+/-- an all-points tuple as skrifa reads it: both `read_dense_deltas` passes succeed -/
+def DenseWF (points : List Iup.Pt) (sp : Option (List Nat)) (Δ : Int) (ts : GvarData.RawTuple × Int) (dt : DTuple) : Prop :=
+  ts.1.allPoints sp = true ∧
+  ∃ xs ys bs rest,
+    PackedDeltas.readDense (points.length + 1) 0 points.length (ts.1.ptsAndDeltas sp).2 = some (xs, bs) ∧
+    PackedDeltas.readDense (points.length + 1) 0 points.length bs = some (ys, rest) ∧
+    (∀ k, -Δ ≤ xs.getD k 0 ∧ xs.getD k 0 ≤ Δ) ∧ (∀ k, -Δ ≤ ys.getD k 0 ∧ ys.getD k 0 ≤ Δ) ∧
+    dt = ⟨ts.2, (List.range points.length).map fun k => (xs.getD k 0, ys.getD k 0),
+      (List.range points.length).map fun _ => true⟩
+
+/-- every point is in some contour or behind the last one -/
+theorem point_in_contour_or_tail (np : Nat) : ∀ (ends : List Nat) (p : Nat), ContoursWF np p ends →
+    ∀ k, p ≤ k → (∃ c ∈ contoursOf p ends, c.1 ≤ k ∧ k ≤ c.2) ∨ endOf p ends ≤ k := by
+  intro ends
+  induction ends with
+  | nil => intro p _ k hk; exact Or.inr hk
+  | cons e es ih =>
+    intro p ⟨h1, h2, h3⟩ k hk
+    by_cases hke : k ≤ e
+    · exact Or.inl ⟨(p, e), by simp [contoursOf], hk, hke⟩
+    · rcases ih (e + 1) h3 k (by omega) with ⟨c, hc, hck⟩ | h
+      · exact Or.inl ⟨c, by simp [contoursOf, hc], hck⟩
+      · exact Or.inr h
+
+/-- the dense model step given the decoded contribution of the all-explicit tuple -/
+theorem DenseWF.step (points : List Iup.Pt) (ends : List Nat) (sp : Option (List Nat)) (Δ : Int)
+    (ts : GvarData.RawTuple × Int) (dt : DTuple) (h : DenseWF points sp Δ ts dt)
+    (hc : ∀ (xs ys : List Int), (∀ k, -Δ ≤ xs.getD k 0 ∧ xs.getD k 0 ≤ Δ) → (∀ k, -Δ ≤ ys.getD k 0 ∧ ys.getD k 0 ≤ Δ) →
+      decodedContribution points ends ⟨ts.2, (List.range points.length).map fun k => (xs.getD k 0, ys.getD k 0),
+          (List.range points.length).map fun _ => true⟩
+        = some ((List.range points.length).map fun k =>
+        (fxScaled ts.2 (xs.getD k 0), fxScaled ts.2 (ys.getD k 0)))) :
+    StepDecodes points ends sp ts dt := by
+  obtain ⟨h0, xs, ys, bs, rest, hx, hy, hbx, hby, rfl⟩ := h
+  intro acc ha
+  rw [hc xs ys hbx hby]
+  simp only [h0, if_true, Option.map_some]
+  unfold accDense
+  simp only [ha, hx, hy]
+  congr 1
+  unfold stepAdd
+  rw [ha]
+  apply List.map_congr_left
+  intro k hk
+  have hk' : k < points.length := by simpa using hk
+  have : ((List.range points.length).map fun k => (fxScaled ts.2 (xs.getD k 0), fxScaled ts.2 (ys.getD k 0))).getD k (0, 0)
+      = (fxScaled ts.2 (xs.getD k 0), fxScaled ts.2 (ys.getD k 0)) := by
+    rw [List.getD_eq_getElem?_getD, List.getElem?_map, List.getElem?_range hk']; rfl
+  rw [this]; rfl
+
 end FontVerif.GvarApply
